@@ -32,6 +32,8 @@ TRUSTED = [
     'tools/emit_persistent.py templates: every Deque/Index method body is matched against a source template, the holes are '
     'compiled to Gen_Persistent.v and pinned by proofs/PersistentBridge.v',
     'the key/value encoding of the correspondence (Python objects -> integers, equal objects equal ids)',
+    'contention: a raw sqlite3 connection executing BEGIN IMMEDIATE on the index\'s cache.db stands for another client holding the write lock; it is '
+    'released from a sched.Tracer hook on the BEGIN statements of the calling thread, the handle under test has SQLite timeout 0 (props/c11.Contention)',
 ]
 ASSUMPTIONS = [
     'keys are ones on which cache key identity coincides with Python equality: no bool keys next to 0/1, no tuples '
@@ -43,6 +45,9 @@ ASSUMPTIONS = [
     'block, pinned by the translator) is taken from C05/C06; proved here: the continuous-presence clause on the micro-step '
     'machine for one key, one lookup, any number of replacing writers, every schedule',
     'mappings compared with == / != have distinct keys (they are dicts)',
+    'a constructor whose source of pairs fails: the reference for the directory\'s contents is OrderedDict().update(source), i.e. the pairs delivered '
+    'before the failure (Index(directory, source) updates the index stored in the directory)',
+    'contended histories contain no unpickle events (they build a handle with the default 60 s SQLite timeout) and handle events are not contended',
 ]
 
 KNOWN_SIG = 'lookup_overlapping_replace'
@@ -174,18 +179,24 @@ class Handle:
             return r
         disk.store = store
 
-    def _make(self, init):
+    def _make(self, init, raw=False):
         kind, d = self.kind, self.directory
+        src = (lambda: init) if raw else (lambda: list(init))       # raw: a source that may fail part-way, handed over as it is
         if kind == 'plain':
-            idx = diskcache.Index(d) if init is None else diskcache.Index(d, list(init))
-        elif kind == 'filebacked':
-            cache = diskcache.Cache(d, disk_min_file_size=8, eviction_policy='none')
-            idx = diskcache.Index.fromcache(cache) if init is None else diskcache.Index.fromcache(cache, list(init))
+            idx = diskcache.Index(d) if init is None else diskcache.Index(d, src())
+        elif kind in ('filebacked', 'contended'):
+            # 'contended': the handle of a client that never waits inside SQLite (timeout 0): a busy write lock is seen at
+            # once and the Index methods themselves have to wait (c11.Contention)
+            kw = {'timeout': 0} if kind == 'contended' else {}
+            cache = diskcache.Cache(d, disk_min_file_size=8, eviction_policy='none', **kw)
+            self.half_open = cache
+            idx = diskcache.Index.fromcache(cache) if init is None else diskcache.Index.fromcache(cache, src())
+            self.half_open = None
         elif kind == 'fanout':
             self.parent = diskcache.FanoutCache(d, shards=2)
             idx = self.parent.index('i/x')
             if init is not None:
-                idx.update(list(init))
+                idx.update(src())
         elif kind == 'django':
             from django.conf import settings
             if not settings.configured:
@@ -194,19 +205,25 @@ class Handle:
             self.parent = DjangoCache(d, {'SHARDS': 2})
             idx = self.parent.index('i')
             if init is not None:
-                idx.update(list(init))
+                idx.update(src())
         else:
             raise ValueError(kind)
         return idx
 
-    def open(self, init):
-        self.idx = self._make(init)
+    def open(self, init, raw=False):
+        self.idx = self._make(init, raw)
         self._count_stores(self.idx)
 
     def _close_current(self):
         try:
             if self.idx is not None:
                 self.idx.cache.close()
+        except Exception:
+            pass
+        try:
+            if getattr(self, 'half_open', None) is not None:
+                self.half_open.close()
+                self.half_open = None
         except Exception:
             pass
         try:
@@ -243,8 +260,56 @@ class Handle:
         self.extra = []
 
 
+class Boom(Exception):
+    """An exception of the caller's own, raised by a source of pairs part-way."""
+
+
+FAIL_EXC = {'Boom': Boom, 'ZeroDivisionError': ZeroDivisionError, 'KeyError': KeyError}
+BAD_PAIRS = [7, None, ('solo',), ('a', 'b', 'c'), 'abc']      # not pairs: TypeError / ValueError from update() in any mapping
+
+
+class FailingKeys:
+    """A mapping-like source (keys() + __getitem__) whose k-th lookup raises."""
+
+    def __init__(self, pairs, k, exc):
+        self.pairs, self.k, self.exc, self.n = list(pairs), k, exc, 0
+
+    def keys(self):
+        return [key for key, _ in self.pairs] + (['<beyond the last key>'] if self.k >= len(self.pairs) else [])
+
+    def __getitem__(self, key):
+        i = self.n
+        self.n += 1
+        if i >= self.k:
+            raise FAIL_EXC[self.exc]('source mapping failed at lookup %d' % i)
+        return self.pairs[i][1]
+
+
+def failing_source(pairs, k, how, bad=None):
+    """A source for update() / the constructor that delivers pairs[:k] and then fails.
+    how = 'malformed': a list whose element k is `bad` (not a pair); 'keys:<Exc>': a mapping-like object whose k-th value lookup
+    raises; '<Exc>': a generator of pairs that raises after k pairs (k == len(pairs): after the last one)."""
+    pairs = list(pairs)
+    if how == 'malformed':
+        return pairs[:k] + [bad] + pairs[k:]
+    if how.startswith('keys:'):
+        return FailingKeys(pairs, k, how[5:])
+
+    def gen():
+        for i, p_ in enumerate(pairs):
+            if i == k:
+                raise FAIL_EXC[how]('source of pairs failed after %d pair(s)' % k)
+            yield p_
+        if k >= len(pairs):
+            raise FAIL_EXC[how]('source of pairs failed after %d pair(s)' % len(pairs))
+    return gen()
+
+
 def perform(m, op, a, impl):
     """One mapping operation on the Index (impl=True) or on the OrderedDict; returns the encoded result."""
+    if op == 'update_failing':
+        m.update(failing_source(*a))
+        return ('none',)
     if op == 'setitem':
         m[a[0]] = a[1]
         return ('none',)
@@ -351,27 +416,46 @@ def compare(op, ri, rr, items_i, items_r):
     return None
 
 
-def run_history(kind, init, ops, mkdir, stats=None, gen=None, maxlen=0, extra_viol=None):
+def run_history(kind, init, ops, mkdir, stats=None, gen=None, maxlen=0, extra_viol=None, init_fail=None, contend=None):
     """Executes `init` then the fixed list `ops`, or, when `gen` is given, up to `maxlen` operations drawn by
     gen(ref) from the current reference state.  Stops at the first divergence.
+    init_fail = [k, how, bad]: the index is constructed from failing_source(init, k, how, bad); the constructor must raise
+    what OrderedDict.update raises for that source, and the directory must hold what an OrderedDict holds after update() with
+    it (the pairs delivered before the failure).  contend = [[k, again], ...]: every call (cyclically) starts while another
+    client holds the write lock and lets it go after k failed BEGIN attempts (c11.Contention; kind 'contended').
     Returns (events, divergence or None, index of the diverging op or -1 for init)."""
     d = mkdir()
     h = Handle(kind, d, stats)
     ref = OrderedDict()
     events = []
     div, at = None, None
+    cont = None
     try:
-        r0 = guarded(lambda: (h.open(init), ('none',))[1])
-        ref.update(list(init))
+        if contend:
+            from props import c11
+            cont = c11.Contention()
+            cont.__enter__()
+        if init_fail is not None:
+            r0 = guarded(lambda: (h.open(failing_source(init, *init_fail), raw=True), ('none',))[1])
+            rr0 = guarded(lambda: (ref.update(failing_source(init, *init_fail)), ('none',))[1])
+            h._close_current()
+            if r0 != rr0:
+                return events, {'sig': 'index_result_init_failing', 'what': 'result', 'expected': repr(rr0), 'observed': repr(r0)}, -1
+            r0 = guarded(lambda: (h.open(None), ('none',))[1])
+        else:
+            r0 = guarded(lambda: (h.open(init), ('none',))[1])
+            ref.update(list(init))
         if r0[0] == 'raise':
             return events, {'sig': 'index_result_init', 'what': 'result', 'expected': "('none',)", 'observed': repr(r0)}, -1
+        if cont is not None:
+            cont.attach(h.idx.directory)
         if kind == 'plain' and extra_viol is not None:
             pol = guarded(lambda: ('val', h.idx.cache.eviction_policy))
             if pol != ('val', 'none'):
                 extra_viol.append(fw.Violation(
                     'index_policy', 'Index(directory) does not use eviction policy none: %r' % (pol,),
                     {'check': 'index_policy', 'kind': kind, 'observed': repr(pol)}))
-        div = compare('init', ('none',), ('none',), impl_items(h), list(ref.items()))
+        div = compare('init_failing' if init_fail is not None else 'init', ('none',), ('none',), impl_items(h), list(ref.items()))
         at = -1
         i = 0
         while div is None:
@@ -383,15 +467,33 @@ def run_history(kind, init, ops, mkdir, stats=None, gen=None, maxlen=0, extra_vi
                 if i >= len(ops):
                     break
                 op, args = ops[i]
-            ri = guarded(impl_apply, h, op, args)
+            if cont is not None and op not in HANDLE_EVENTS:
+                k, again = contend[i % len(contend)]
+                ri = cont.call(k, again, lambda: guarded(impl_apply, h, op, args))
+            else:
+                ri = guarded(impl_apply, h, op, args)
             rr = guarded(ref_apply, ref, op, args)
             items = impl_items(h)
             events.append({'op': op, 'args': list(args), 'res': ri, 'items': items if isinstance(items, list) else []})
             div = compare(op, ri, rr, items, list(ref.items()))
+            if cont is not None and cont.gave_up and div is None:
+                div = {'sig': 'index_never_returns_' + op, 'what': 'termination', 'expected': crepr(rr),
+                       'observed': 'still retrying after %d failed BEGIN attempts' % cont.BUDGET}
+            if div is not None and cont is not None:
+                # the same comparison with OrderedDict, made while another client held the write lock
+                div['sig'] = 'index_contended_' + div['sig'][len('index_'):]
+                if op not in HANDLE_EVENTS:
+                    div['what'] += ' (another client held the write lock when the call started and released it after %d failed attempt(s))' % k
             at = i
             i += 1
         return events, div, (at if div is not None else None)
     finally:
+        if cont is not None:
+            cont.__exit__(None, None, None)
+            if stats is not None:
+                for key, v in (('contended_calls', cont.calls), ('contended_calls_that_waited', cont.calls_that_waited),
+                               ('contended_failed_begin_attempts', cont.total_failed)):
+                    stats[key] = stats.get(key, 0) + v
         h.close()
         shutil.rmtree(d, ignore_errors=True)
 
@@ -576,12 +678,12 @@ def gen_init(rng, kind, stream):
 # -- shrinking and reporting
 
 
-def diverges_at_end(kind, init, ops, mkdir, sig):
-    _, div, at = run_history(kind, init, ops, mkdir)
+def diverges_at_end(kind, init, ops, mkdir, sig, extra=None):
+    _, div, at = run_history(kind, init, ops, mkdir, **(extra or {}))
     return div is not None and div['sig'] == sig and at == len(ops) - 1
 
 
-def shrink(kind, init, ops, mkdir, sig, budget=160):
+def shrink(kind, init, ops, mkdir, sig, budget=160, extra=None):
     """Greedy: delete earlier ops / initial pairs while the same divergence at the LAST op persists."""
     init, ops = list(init), list(ops)
     changed = True
@@ -591,26 +693,32 @@ def shrink(kind, init, ops, mkdir, sig, budget=160):
         while i >= 0 and budget > 0:
             cand = ops[:i] + ops[i + 1:]
             budget -= 1
-            if diverges_at_end(kind, init, cand, mkdir, sig):
+            if diverges_at_end(kind, init, cand, mkdir, sig, extra):
                 ops = cand
                 changed = True
             i -= 1
         j = len(init) - 1
-        while j >= 0 and budget > 0:
+        while j >= 0 and budget > 0 and not (extra or {}).get('init_fail'):
             cand = init[:j] + init[j + 1:]
             budget -= 1
-            if diverges_at_end(kind, cand, ops, mkdir, sig):
+            if diverges_at_end(kind, cand, ops, mkdir, sig, extra):
                 init = cand
                 changed = True
             j -= 1
     return init, ops
 
 
-def history_case(hid, kind, stream, init, ops, div):
-    return {'check': 'index_history', 'history': hid, 'kind': kind, 'stream': stream,
+def history_case(hid, kind, stream, init, ops, div, extra=None):
+    case = {'check': 'index_history', 'history': hid, 'kind': kind, 'stream': stream,
             'init': [[crepr(k, True), crepr(v, True)] for k, v in init],
             'ops': [[op, rl(args)] for op, args in ops],
             'what': div['what'], 'expected': div['expected'], 'observed': div['observed']}
+    if extra and extra.get('init_fail') is not None:
+        f = extra['init_fail']
+        case['init_fail'] = [f[0], f[1], crepr(f[2], True)]
+    if extra and extra.get('contend'):
+        case['contend'] = extra['contend']
+    return case
 
 
 def short_history(h, nmax=14):
@@ -682,6 +790,89 @@ def sequential(ctx, res, nhist, stats):
     stats['ops'] = stats.get('ops', 0) + nops
     stats['errors'] = stats.get('errors', 0) + nerr
     return histories
+
+
+def gen_failing_source(rng, ref, kind):
+    """Arguments [pairs, k, how, bad] of a failing source: new and already present keys, values of the kind's pools."""
+    n = rng.choice([0, 1, 2, 3, 3, 4, 5])
+    pairs = []
+    for _ in range(n):
+        k = pick_key(rng, ref, 0.5) if rng.random() < 0.6 else any_key(rng)
+        pairs.append((k, pick_value(rng, kind)))
+    k = rng.randint(0, n)
+    x = rng.random()
+    if x < 0.45:
+        return [pairs, k, rng.choice(sorted(FAIL_EXC)), None]
+    if x < 0.8:
+        return [pairs, k, 'malformed', rng.choice(BAD_PAIRS)]
+    return [pairs, k, 'keys:' + rng.choice(sorted(FAIL_EXC)), None]
+
+
+def gen_extra_history(rng, kind, what, stats):
+    """(init, ops, extra): a history with failing sources (what == 'failing') or one whose calls all start under a held write
+    lock (what == 'contended'); generated ahead against an OrderedDict."""
+    ref = OrderedDict()
+    init = gen_init(rng, kind, 'valid')
+    extra = {}
+    if what == 'failing' and rng.random() < 0.4:
+        f = gen_failing_source(rng, OrderedDict(init), kind)
+        init, extra['init_fail'] = f[0], f[1:]
+        guarded(lambda: ref.update(failing_source(init, *extra['init_fail'])))
+    else:
+        ref.update(list(init))
+    if what == 'contended':
+        extra['contend'] = [[rng.choice([1, 1, 2, 3]), (None if rng.random() < 0.6 else [rng.choice([1, 2]), rng.choice([1, 2])])]
+                            for _ in range(7)]
+    g = make_gen(rng, kind, 'valid', stats)
+    ops = []
+    for _ in range(rng.randint(4, 12) if what == 'failing' else rng.randint(10, 30)):
+        if what == 'failing' and rng.random() < 0.5:
+            ops.append(('update_failing', gen_failing_source(rng, ref, kind)))
+            if rng.random() < 0.5:
+                ops.append((rng.choice(['reopen', 'reopen', 'pickle']), []))
+        else:
+            op, args = g(ref)
+            if what == 'contended' and op == 'pickle':
+                op = 'reopen'       # unpickling builds an Index with the default 60 s SQLite timeout: not a handle to contend with in one thread
+            ops.append((op, args))
+        guarded(ref_apply, ref, ops[-1][0], ops[-1][1])
+    return init, ops, extra
+
+
+def extra_histories(ctx, res, stats, nfailing, ncontended):
+    """Monitor-only histories (not sent to the Coq model): sources of pairs that fail part-way (update / constructor /
+    fromcache); every call made while another client holds the write lock."""
+    rng = ctx.rng
+
+    def mkdir():
+        return ctx.scratch('c12x')
+    plan = [('failing', KINDS[k % len(KINDS)]) for k in range(nfailing)] + [('contended', 'contended')] * ncontended
+    shrunk = {}
+    for hid, (what, kind) in enumerate(plan):
+        init, ops, extra = gen_extra_history(rng, kind, what, stats)
+        events, div, at = run_history(kind, init, ops, mkdir, stats=stats, **extra)
+        stats['histories_' + what] = stats.get('histories_' + what, 0) + 1
+        before = None
+        for e in events:
+            if e['op'] == 'update_failing':
+                stats['failing_sources'] = stats.get('failing_sources', 0) + 1
+            res.count([what, kind, e['op'], crepr(e['args']), crepr(before)], nontrivial=True)
+            before = e['items']
+        if div is None:
+            continue
+        sig = div['sig']
+        upto = ops[:at + 1] if at is not None and at >= 0 else []
+        if shrunk.get(sig, 0) >= 2:
+            continue
+        shrunk[sig] = shrunk.get(sig, 0) + 1
+        sinit, sops = shrink(kind, init, upto, mkdir, sig, extra=extra) if upto else (init, upto)
+        _, sdiv, sat = run_history(kind, sinit, sops, mkdir, **extra)
+        if sdiv is None or sdiv['sig'] != sig:
+            sinit, sops, sdiv = init, upto, div
+        desc = 'Index diverges from OrderedDict (%s) at %s: expected %s observed %s' % (
+            sdiv['what'], 'construction' if not sops else '%s(%s)' % (sops[-1][0], ', '.join(rl(sops[-1][1]))[:300]),
+            sdiv['expected'][:200], sdiv['observed'][:200])
+        res.violations.append(fw.Violation(sig, desc, history_case('%s-%d' % (what, hid), kind, what, sinit, sops, sdiv, extra)))
 
 
 def directed_values(ctx, res, stats, histories, thorough):
@@ -1405,6 +1596,9 @@ def finish_extra(res, stats):
         'schedule_steps': stats.get('schedule_steps', 0),
         'known_hits': stats.get('known_hits', 0),
     })
+    for k in ('histories_failing', 'histories_contended', 'failing_sources', 'contended_calls', 'contended_calls_that_waited',
+              'contended_failed_begin_attempts'):
+        res.extra[k] = stats.get(k, 0)
 
 
 RULE = ('sequential: generated histories of 10-40 mapping operations (two streams: valid = mostly present keys, malformed = absent '
@@ -1418,7 +1612,13 @@ RULE = ('sequential: generated histories of 10-40 mapping operations (two stream
         'distinct = distinct (kind, op, arguments, contents before); non-trivial = contents before or '
         'after non-empty, or the call raises.  concurrent: 2-3 clients with their own Cache on one directory under random '
         'deterministic schedules of 50-300 steps (S1 continuous presence, S1 inline only, S2 popitem accounting); non-trivial = '
-        'at least two context switches; plus the replayed witness schedule of the known finding.')
+        'at least two context switches; plus the replayed witness schedule of the known finding.  Failing sources (monitor only): histories '
+        'of 4-12 calls on every kind in which update() -- and for Index(directory, source) / Index.fromcache(cache, source) the constructor -- gets a '
+        'source of n = 0..5 pairs (new and present keys, inline and file-backed values) that fails after k = 0..n pairs: a generator that raises, a '
+        'list whose element k is not a pair (7, None, 1-tuple, 3-tuple, \'abc\'), a keys()/[] object whose k-th lookup raises; followed by reads and '
+        'reopen/unpickle events; OrderedDict keeps the pairs delivered before the failure.  Contention (monitor only): valid-stream histories on '
+        'Index.fromcache(Cache(dir, timeout=0)); every call starts while a second connection holds the write lock, released just before the '
+        'call\'s (k+1)-th BEGIN attempt (k = 1..3): every method must wait and return what OrderedDict returns, never Timeout.')
 
 
 def run(ctx):
@@ -1428,6 +1628,7 @@ def run(ctx):
     nhist, nsched = (250, 60) if ctx.quick else (2500, 600)
     histories = sequential(ctx, res, nhist, stats)
     directed_values(ctx, res, stats, histories, not ctx.quick)
+    extra_histories(ctx, res, stats, 80 if ctx.quick else 800, 40 if ctx.quick else 400)
     correspondence(ctx, res, histories, 7000 if ctx.quick else 100000)
     concurrent(ctx, res, nsched, stats)
     machine_correspondence(ctx, res, 40 if ctx.quick else 400)
@@ -1445,6 +1646,7 @@ def search(ctx, broken):
     nhist, nsched = (700, 150) if ctx.quick else (3000, 600)
     sequential(ctx, res, nhist, stats)
     directed_values(ctx, res, stats, [], True)
+    extra_histories(ctx, res, stats, 240, 120)
     concurrent(ctx, res, nsched, stats)
     res.witnessed[KNOWN_SIG] = witness_lookup_overlapping_replace()
     return res
@@ -1482,7 +1684,16 @@ def replay(payload):
         ops = [(op, [ev(a) for a in args]) for op, args in case['ops']]
         print('kind:', kind)
         print('init:', crepr(init))
-        events, div, at = run_history(kind, init, ops, lambda: tempfile.mkdtemp(prefix='c12r-'))
+        extra = {}
+        if case.get('init_fail'):
+            f = case['init_fail']
+            extra['init_fail'] = [f[0], f[1], ev(f[2])]
+            print('the index is constructed from a source that delivers %d of these pairs and then fails (%s%s)'
+                  % (f[0], f[1], '' if f[1] != 'malformed' else ': element %s' % f[2]))
+        if case.get('contend'):
+            extra['contend'] = case['contend']
+            print('every call runs while another connection holds the write lock (released after k failed BEGIN attempts; [k, again]): %r' % (case['contend'],))
+        events, div, at = run_history(kind, init, ops, lambda: tempfile.mkdtemp(prefix='c12r-'), **extra)
         for i, e in enumerate(events):
             print('  %2d %s(%s) -> %s   items=%s' % (i, e['op'], ', '.join(crepr(x) for x in e['args']), crepr(e['res']), crepr(e['items'])))
         if div is None:
